@@ -157,8 +157,9 @@ class Evaluator:
         for x in walk(p.ret):
             inside.add(x)
         for t, who in mutated:
-            # iterators advanced by next() are consumed, not observed
-            if who and who.endswith("::next"):
+            # iterators advanced by next() / any() / find() ... are consumed, not observed afterwards
+            if who and who.rsplit("::", 1)[-1] in ("next", "any", "all", "find", "find_map", "position", "rposition", "count", "sum", "fold",
+                                                   "last", "nth", "for_each", "try_for_each", "max", "min", "next_back") and "Iterator" in who:
                 continue
             if t in inside:
                 raise Unknown("%s returns a value that was changed in place by %s (not modelled)" % (body.name, (who or "?").rsplit("::", 1)[-1]))
